@@ -573,9 +573,54 @@ func TestVfC01UpstreamReplies(t *testing.T) {
 				}()
 			}
 		}
+		// ... and, for the upstreams that speak HTTP, a good reply under response headers that lie or surprise: a
+		// Content-Length that is absurd, a little too large, too small or zero, another Content-Type, a Content-Encoding.
+		// The length field of this transport is the header; the body is bounded by what arrives, whatever the header says.
+		for ki, kind := range kinds {
+			if kind != "https" && kind != "h3" {
+				continue
+			}
+			for hi, hdr := range []map[string]string{
+				{"Content-Length": "9223372036854775807"}, {"Content-Length": "4611686018427387904"}, {"Content-Length": "1125899906842624"},
+				{"Content-Length": "4294967296"}, {"Content-Length": "2147483648"}, {"Content-Length": "65536"}, {"Content-Length": "+1"}, {"Content-Length": "-1"}, {"Content-Length": "0"},
+				{"Content-Type": "text/html"}, {"Content-Type": ""}, {"Content-Encoding": "gzip"}, {"Transfer-Encoding": "chunked", "Trailer": "X-Late"},
+			} {
+				ki, kind, hi, hdr := ki, kind, hi, hdr
+				label := fmt.Sprintf("w%dk%dp%d", hi, ki, os.Getpid())
+				scripts.Store(label, func(q *UpQuery) UpAction {
+					a := UpAction{Reply: EncodeMsg(KeyedAnswer(q.Msg, "hdr", 1, 60, 0)), HTTPHeaders: map[string]string{}}
+					for k, v := range hdr {
+						switch v {
+						case "+1":
+							v = itoa(len(a.Reply) + 1)
+						case "-1":
+							v = itoa(len(a.Reply) - 1)
+						}
+						a.HTTPHeaders[k] = v
+					}
+					return a
+				})
+				wg.Add(1)
+				go func() {
+					defer wg.Done()
+					defer scripts.Delete(label)
+					a := NewAsker(block+"10", "")
+					defer a.Close()
+					res := a.Ask("tcp", Query(uint16(3000+ki*16+hi), vfkit.Name{[]byte(label), []byte("k" + itoa(ki)), []byte("test")}, 1, 1, false), 9*time.Second, 0)
+					if len(res.Resps) != 1 || !res.Resps[0].Msg.Clean() {
+						mu.Lock()
+						bad = append(bad, fmt.Sprintf("upstream %s reply under the response headers %v: %d responses", kind, hdr, len(res.Resps)))
+						mu.Unlock()
+					}
+					st.Case(vfkit.Fingerprint(kind, "http-header-sweep", fmt.Sprint(hdr)), true, []string{"upstream=" + kind, "variant=http-header-sweep"}, func() any {
+						return map[string]any{"upstream": kind, "variant": "http-header-sweep", "headers": fmt.Sprint(hdr)}
+					})
+				}()
+			}
+		}
 		wg.Wait()
 		if p.Exited() || p.Crashed() != "" {
-			t.Fatalf("the proxy died during the boundary tier (upstream replies of 0..11 octets, and decodable replies of unusual shape)\n%s", tail(p.Stderr(), 3000))
+			t.Fatalf("the proxy died during the boundary tier (upstream replies of 0..11 octets, decodable replies of unusual shape, HTTP replies under lying response headers)\n%s", tail(p.Stderr(), 3000))
 		}
 		if len(bad) > 0 {
 			t.Fatalf("boundary tier: no single clean response (SERVFAIL for the tiny replies) after %v", bad)
